@@ -473,7 +473,12 @@ def deepcopy_memo(ctx, rep: Report, rule: str):
     rep.rules[rule] = "__deepcopy__ registers the copy in the memo before copying attributes"
     fi = ctx.p.find_function("DeepCopyMethod.deepcopy")
     regs = [n for n in walk_own(fi.node) if isinstance(n, ast.Assign) and any(isinstance(t, ast.Subscript) and ast.unparse(t.value) == "memo" and "id(self)" in ast.unparse(t.slice) for t in n.targets)]
-    first_copy = min((n.lineno for n in walk_own(fi.node) if isinstance(n, ast.Call) and ast.unparse(n.func).split(".")[-1] in ("protect_via_deepcopy", "deepcopy")), default=None)
+    def copies(fnode):
+        return any(isinstance(n, ast.Call) and ast.unparse(n.func).split(".")[-1] in ("protect_via_deepcopy", "deepcopy") for n in ast.walk(fnode))
+    from .base import static_callees
+    copy_lines = [n.lineno for n in walk_own(fi.node) if isinstance(n, ast.Call) and ast.unparse(n.func).split(".")[-1] in ("protect_via_deepcopy", "deepcopy")]
+    copy_lines += [call.lineno for call, g in static_callees(ctx.p, fi) if copies(g.node)]      # the copy loop may live in a private helper
+    first_copy = min(copy_lines, default=None)
     if first_copy is None:
         raise AnalysisError(f"{rule}: no attribute copy found in DeepCopyMethod.deepcopy")
     ok = bool(regs) and min(r.lineno for r in regs) < first_copy
